@@ -28,13 +28,16 @@ def build(cfg):
     import dask.array as da
     import flox
 
-    labels = np.array(cfg["labels"], dtype=float)
+    labels = np.array(cfg["labels"], dtype=cfg.get("labels_dtype", float))
     n = len(labels)
     batch = 2 * cfg.get("batch_blocks", 1)
     V = values_for(cfg.get("dtype", "float64"), n, batch)
     bch = (batch,) if cfg.get("batch_blocks", 1) == 1 else (batch // 2, batch - batch // 2)
     arr = da.from_array(V, chunks=(bch, tuple(cfg["chunks"])))
     by = da.from_array(labels, chunks=(tuple(cfg["chunks"]),)) if cfg.get("labels_dask") else labels
+    from . import graphx
+
+    before = dict(array=graphx.digest(V), labels=graphx.digest(labels))
     dcfg = {}
     if cfg.get("split_every") is not None:
         dcfg["split_every"] = cfg["split_every"]
@@ -42,8 +45,15 @@ def build(cfg):
         if cfg["kind"] == "reduce":
             kw = dict(func=cfg["func"], method=cfg.get("method"), engine=cfg.get("engine"))
             if cfg.get("expected") is not None:
-                kw["expected_groups"] = np.array(cfg["expected"], dtype=float)
+                if cfg.get("expected_kind") == "rangeindex":
+                    import pandas as pd
+
+                    kw["expected_groups"] = pd.RangeIndex(cfg["expected"])
+                else:
+                    kw["expected_groups"] = np.array(cfg["expected"], dtype=float)
                 kw["fill_value"] = cfg.get("fill_value", -99)
+            if cfg.get("user_agg"):
+                kw["func"] = user_aggregation(cfg["user_agg"])
             if cfg.get("finalize_kwargs"):
                 kw["finalize_kwargs"] = cfg["finalize_kwargs"]
             result, *groups = flox.groupby_reduce(arr, by, **kw)
@@ -62,7 +72,29 @@ def build(cfg):
                 return flox.groupby_scan(V, labels, func=cfg["func"])
         if cfg.get("optimize"):
             colls = dask.optimize(*colls)
-    return colls, dict(array=V, labels=labels), eager
+    return colls, dict(array=V, labels=labels, _before=before), eager
+
+
+_USER_AGGS = {}
+
+
+def user_aggregation(name):
+    """User-defined Aggregation objects, ONE object per name for the whole process (so that reuse across calls is real)."""
+    import flox
+
+    if name not in _USER_AGGS:
+        if name == "sumsq":
+            _USER_AGGS[name] = flox.Aggregation("sumsq", numpy="nansum_of_squares", chunk="nansum_of_squares", combine="sum", fill_value=0)
+        elif name == "range":
+            _USER_AGGS[name] = flox.Aggregation("range", numpy=None, chunk=("nanmax", "nanmin"), combine=("nanmax", "nanmin"),
+                                                finalize=_range_finalize, fill_value=(-np.inf, np.inf), final_fill_value=np.nan)
+        else:
+            raise KeyError(name)
+    return _USER_AGGS[name]
+
+
+def _range_finalize(mx, mn):
+    return mx - mn
 
 
 def reduce_cfgs(k_values, split_everys=(None, 2), batch_blocks=(1, 2), bb2_max_k=3):
@@ -106,6 +138,16 @@ def reduce_cfgs(k_values, split_everys=(None, 2), batch_blocks=(1, 2), bb2_max_k
                     chunks=[2, 2, 2], batch_blocks=1))
     out.append(dict(kind="reduce", func="any", method="map-reduce", dtype="bool", engine="numbagg", labels=[0, 1, 0, NAN, 1, 0],
                     chunks=[2, 2, 2], batch_blocks=1))
+    # integer labels with a user-supplied RangeIndex shorter than the largest label (codes are rewritten to -1)
+    for ld in (False, True):
+        for method in ("map-reduce", "cohorts"):
+            if ld and method == "cohorts":
+                continue
+            out.append(dict(kind="reduce", func="nansum", method=method, dtype="float64", engine="numpy", labels=[0, 1, 5, 2, 1, 7],
+                            labels_dtype="int64", chunks=[2, 2, 2], labels_dask=ld, expected=3, expected_kind="rangeindex", batch_blocks=1))
+    # a user-defined Aggregation object
+    out.append(dict(kind="reduce", func="sumsq", user_agg="sumsq", method="map-reduce", dtype="float64", engine="numpy",
+                    labels=[0, 1, 0, NAN, 1, 0], chunks=[2, 2, 2], batch_blocks=1, expected=[0, 1, 2], fill_value=-1))
     return out
 
 
